@@ -1,1 +1,266 @@
-/- C04: property theorems (not yet built). -/
+/-
+  C04 — evaluation is total: a value or a Jsonnet error, never a crash.
+
+  Part 1: the frame counter (`stack.rs`, `in_frame`, `in_description_frame`) as a counter machine
+          over arbitrary nested computations; part 2: checked-arithmetic kernels.
+  Whole-program absence of crashes is observed by the worker harness (engine c04w), not proved.
+-/
+import JrsVerif.Proofs.Stack
+import JrsVerif.Proofs.Total
+import JrsVerif.Props.C08
+
+namespace JrsVerif.Props.C04
+open JrsVerif.Stack
+
+/-! ## 1. The frame counter -/
+
+/-- Whatever a computation does — frames entered and left through `Ok` or through `Err`, limit
+    overrides, errors swallowed by the caller — the depth afterwards is the depth before, and
+    (unless the unguarded C-API setter was used) so is the limit. -/
+theorem stack_balanced (p : Prog) (s : St) (r : Res) (h : run s p = some r) :
+    r.st.cur = s.cur ∧ (noSet p = true → r.st.max = s.max) :=
+  ⟨run_cur p s r h, fun hn => run_max p s r hn h⟩
+
+/-- No counter operation can panic: `current + 1`, `current_depth + depth_limit` stay inside
+    `usize` and the guard's `current - 1` never underflows, for every computation whose nesting
+    and limit arguments fit the machine word. -/
+theorem stack_total (p : Prog) (s : St) (h : s.cur + depth p + maxLimit p < USIZE) :
+    ∃ r, run s p = some r := run_total p s h
+
+example : (⟨512, 0⟩ : St).cur + depth (nest 100000) + maxLimit (nest 100000) < USIZE := by
+  have hd : ∀ n, depth (nest n) = n := by
+    intro n; induction n with
+    | zero => rfl
+    | succ n ih => simp [nest, depth, ih]
+  have hl : ∀ n, maxLimit (nest n) = 0 := by
+    intro n; induction n with
+    | zero => rfl
+    | succ n ih => simp [nest, maxLimit, ih]
+  rw [hd, hl]; decide
+
+/-- The depth never exceeds the limit in force: at every point where the computation looks at the
+    counter, and at the end. -/
+theorem stack_bounded (p : Prog) (s : St) (r : Res) (hs : s.cur ≤ s.max) (h : run s p = some r) :
+    r.st.cur ≤ r.st.max ∧ ∀ t ∈ r.log, t.cur ≤ t.max := run_bounded p s r hs h
+
+/-- With the limit `M` configured once at top level (the CLI's `--max-stack`), no point of the
+    computation is ever deeper than `M` frames. -/
+theorem stack_bounded_top (p : Prog) (M : Nat) (r : Res) (hn : noLimit p = true)
+    (h : run ⟨M, 0⟩ p = some r) : ∀ t ∈ r.log, t.cur ≤ M := by
+  intro t ht
+  have h1 := (run_bounded p ⟨M, 0⟩ r (Nat.zero_le _) h).2 t ht
+  have h2 := (run_log_max p ⟨M, 0⟩ r hn h).2 t ht
+  simp only at h2; omega
+
+/-- At the limit a frame is refused with the stack-overflow error, its body does not run and the
+    counter is untouched. -/
+theorem limit_hit_is_error (body : Prog) (s : St) (h : s.max ≤ s.cur) :
+    run s (.frame body) = some ⟨s, .errStack, []⟩ := by
+  have : ¬ s.cur < s.max := by omega
+  simp [run, checkDepth, this]
+
+/-- Below the limit the frame is entered: the body runs one level deeper and its outcome is the
+    frame's outcome. -/
+theorem below_limit_enters (body : Prog) (s : St) (r : Res) (h : s.cur < s.max) (hm : s.max < USIZE)
+    (hb : run { s with cur := s.cur + 1 } body = some r) :
+    run s (.frame body) = some ⟨{ r.st with cur := r.st.cur - 1 }, r.out, r.log⟩ := by
+  have h1 : s.cur + 1 < USIZE := by omega
+  have hc := run_cur body _ r hb
+  simp only at hc
+  have h0 : r.st.cur ≠ 0 := by omega
+  simp [run, checkDepth, h, h1, hb, guardDrop, h0]
+
+/-- Any computation that has no failing step of its own and whose frame nesting stays within the
+    limit succeeds ("recursion well below the limit succeeds"). -/
+theorem below_limit_ok (p : Prog) (s : St) (hf : noFail p = true) (hn : noLimit p = true)
+    (hd : s.cur + depth p ≤ s.max) (hm : s.max < USIZE) :
+    ∃ r, run s p = some r ∧ r.out = .ok ∧ r.st = s := run_ok_of_fits p s hf hn hd hm
+
+/-- Recursion `n` levels deep under limit `M`: succeeds exactly when `n ≤ M`, otherwise it is
+    stopped with the stack-overflow error; the counter is back at 0 either way. -/
+theorem recursion_stopped_at_limit (M n : Nat) (hm : M < USIZE) :
+    run ⟨M, 0⟩ (nest n) =
+      some ⟨⟨M, 0⟩, if n ≤ M then .ok else .errStack, if n ≤ M then [⟨M, n⟩] else []⟩ := by
+  have := run_nest n ⟨M, 0⟩ (Nat.zero_le _) hm
+  simpa using this
+
+example : run ⟨200, 0⟩ (nest 200) = some ⟨⟨200, 0⟩, .ok, [⟨200, 200⟩]⟩ := by
+  have := recursion_stopped_at_limit 200 200 (by decide); simpa using this
+example : run ⟨200, 0⟩ (nest 201) = some ⟨⟨200, 0⟩, .errStack, []⟩ := by
+  have := recursion_stopped_at_limit 200 201 (by decide); simpa using this
+
+/-- After ANY outcome of a computation (value, error, stack overflow) the thread's counter state
+    is exactly what it was, so whatever is evaluated next behaves as on a fresh thread. -/
+theorem usable_after_error (p q : Prog) (s : St) (r : Res) (hn : noSet p = true)
+    (h : run s p = some r) : run r.st q = run s q := by
+  rw [run_state p s r hn h]
+
+example : ∃ r, run ⟨3, 0⟩ (.seq (nest 5) .skip) = some r ∧ r.out = .errStack ∧
+    run r.st (nest 3) = run ⟨3, 0⟩ (nest 3) := by
+  refine ⟨⟨⟨3, 0⟩, .errStack, []⟩, by decide, rfl, rfl⟩
+
+/-- The thread-local counter with its drop guards is an implementation of the lexical meaning:
+    the depth seen at any point is the number of enclosing frames, the limit the innermost
+    enclosing override, a frame beyond the limit is a stack-overflow error whose body does not run;
+    nothing leaks from one part of a computation into the next. -/
+theorem stack_refines_lexical (p : Prog) (s : St) (hn : noSet p = true)
+    (hb : s.cur + depth p + maxLimit p < USIZE) :
+    run s p = some ⟨s, (Spec.eval s.max s.cur p).1, (Spec.eval s.max s.cur p).2⟩ :=
+  run_eq_spec p s hn hb
+
+/-! ## 2. Checked-arithmetic kernels -/
+open JrsVerif.Total
+
+/-- the full statement: `prepare_call` never panics -/
+def PrepareCallTotalStmt : Prop :=
+  ∀ (ps : List Param) (unnamed : Nat) (named : List String),
+    ps.length < 2 ^ 63 → named.length < 2 ^ 63 → ∀ why, prepareCall ps unnamed named ≠ .panic why
+
+/-- … is false for the code as it stands: a function literal with a repeated parameter name runs
+    into `unreachable!()` (known finding `c04_duplicate_parameter_names_panic`; the harness replays
+    exactly this witness: `function(a, a) [a, a]` called with `a=…`) -/
+theorem prepareCall_counterexample : ¬ PrepareCallTotalStmt := by
+  intro h
+  exact h [⟨some "a", false⟩, ⟨some "a", false⟩] 0 ["a"] (by decide) (by decide) "unreachable" (by decide)
+
+/-- `prepare_call` never panics — no arity arithmetic under/overflows and the `unreachable!()` is
+    not reached — for every function whose parameter names are pairwise different, any number of
+    positional arguments and any list of named arguments. -/
+theorem prepareCall_partial (ps : List Param) (unnamed : Nat) (named : List String)
+    (hnd : NodupNames ps) (hp : ps.length < 2 ^ 63) (hq : named.length < 2 ^ 63) (why : String) :
+    prepareCall ps unnamed named ≠ .panic why := by
+  unfold prepareCall
+  split
+  · simp
+  · rename_i hu
+    have hadd : uadd unnamed named.length = some (unnamed + named.length) := by
+      have : unnamed + named.length < Total.USIZE := by unfold Total.USIZE; omega
+      simp [uadd, this]
+    simp only [hadd, prepareTail]
+    split
+    · simp
+    · split
+      · rename_i hlt
+        split
+        · have hne := firstUnbound_some_of_short ps unnamed named hnd hlt
+          split
+          · simp
+          · rename_i hfu; exact absurd hfu hne
+        · simp
+      · simp
+
+example : NodupNames [⟨some "a", false⟩, ⟨some "b", true⟩, ⟨none, false⟩] := by
+  unfold NodupNames; decide
+
+/-- before the repair the same call shape panicked in the subtraction (the TLA case) -/
+theorem prepareCall_orig_defect :
+    prepareCallOrig [⟨some "a", false⟩] 0 ["a", "b"] =
+      .panic "params.len() - unnamed - named.len() underflows" := by decide
+
+/-- More arguments than parameters is always reported as an error (never accepted, never a
+    panic): the extra top-level argument of `--tla-str a=1 --tla-str b=2`. -/
+theorem prepareCall_overfull_is_error (ps : List Param) (unnamed : Nat) (named : List String)
+    (hp : ps.length < 2 ^ 63) (hq : named.length < 2 ^ 63)
+    (hover : ps.length < unnamed + named.length) :
+    ∃ e, prepareCall ps unnamed named = .err e := by
+  unfold prepareCall
+  split
+  · exact ⟨_, rfl⟩
+  · rename_i hu
+    have hadd : uadd unnamed named.length = some (unnamed + named.length) := by
+      have : unnamed + named.length < Total.USIZE := by unfold Total.USIZE; omega
+      simp [uadd, this]
+    simp only [hadd, prepareTail]
+    split
+    · exact ⟨_, rfl⟩
+    · rename_i passed ops hloop
+      exfalso
+      have hinv := namedLoop_inv ps named (List.range unnamed) [] 0 passed ops hloop
+        List.nodup_range (by intro i hi; have := List.mem_range.mp hi; omega)
+      have hle := nodup_subset_length passed (List.range ps.length) hinv.1
+        (by intro i hi; exact List.mem_range.mpr (hinv.2.1 i hi))
+      rw [hinv.2.2] at hle
+      simp only [List.length_range] at hle
+      omega
+
+example : prepareCall [⟨some "a", false⟩] 0 ["a", "b"] = .err (.unknown "b") := by decide
+
+/-- `std.clamp` never panics, whatever the order of the bounds … -/
+theorem clamp_total (x lo hi : Int) : clamp x lo hi ≠ none := by simp [clamp]
+
+/-- … it is the std.jsonnet definition … -/
+theorem clamp_spec (x lo hi : Int) : clamp x lo hi = some (Spec.clamp x lo hi) := rfl
+
+/-- … and with ordered bounds the result lies between them and is `x` when `x` does. -/
+theorem clamp_in_range (x lo hi : Int) (h : lo ≤ hi) :
+    lo ≤ Spec.clamp x lo hi ∧ Spec.clamp x lo hi ≤ hi ∧ (lo ≤ x → x ≤ hi → Spec.clamp x lo hi = x) := by
+  unfold Spec.clamp
+  refine ⟨?_, ?_, ?_⟩
+  · split
+    · omega
+    · split <;> omega
+  · split
+    · omega
+    · split <;> omega
+  · intro h1 h2
+    split
+    · omega
+    · split <;> omega
+
+/-- before the repair: `f64::clamp` panicked for `std.clamp(1, 5, 2)` -/
+theorem clamp_orig_defect : clampOrig 1 5 2 = none := by decide
+
+/-- The debug truncation never slices inside a character and never runs off the string, for every
+    string and every byte limit; what it keeps is exactly the longest prefix and the longest suffix
+    of at most `limit / 2` bytes each, joined by `..`. -/
+theorem truncateDebug_spec (cs : List Nat) (t : Nat) :
+    truncateDebug cs t = some (Spec.truncate cs t) := by
+  unfold truncateDebug Spec.truncate
+  split
+  · rename_i hgt
+    have hb : t / 2 ≤ byteLen cs := by
+      have : t / 2 ≤ t := Nat.div_le_self t 2
+      omega
+    rw [floorB_eq_prefixFit cs (t / 2)]
+    simp only [usub, hb, if_true]
+    rw [ceilB_eq_suffixFit cs (t / 2) (byteLen cs) (Nat.le_refl _)]
+    obtain ⟨rest, hr⟩ := prefixFit_prefix cs (t / 2)
+    obtain ⟨pre, hp⟩ := suffixFit_suffix cs (t / 2)
+    have h1 : takeBytes cs (byteLen (Spec.prefixFit cs (t / 2))) = some (Spec.prefixFit cs (t / 2)) := by
+      have := takeBytes_append (Spec.prefixFit cs (t / 2)) rest
+      rw [← hr] at this; exact this
+    have h2 : dropBytes cs (byteLen cs - byteLen (Spec.suffixFit cs (t / 2))) =
+        some (Spec.suffixFit cs (t / 2)) := by
+      have e : byteLen cs - byteLen (Spec.suffixFit cs (t / 2)) = byteLen pre := by
+        have := congrArg byteLen hp
+        rw [byteLen_append] at this
+        omega
+      rw [e]
+      have := dropBytes_append pre (Spec.suffixFit cs (t / 2))
+      rw [← hp] at this; exact this
+    simp only [h1, h2]
+  · rfl
+
+theorem truncateDebug_total (cs : List Nat) (t : Nat) : truncateDebug cs t ≠ none := by
+  rw [truncateDebug_spec]; simp
+
+/-- each kept side fits its half of the limit -/
+theorem truncateDebug_sides_fit (cs : List Nat) (t : Nat) :
+    byteLen (Spec.prefixFit cs (t / 2)) ≤ t / 2 ∧ byteLen (Spec.suffixFit cs (t / 2)) ≤ t / 2 :=
+  ⟨prefixFit_fits cs (t / 2), suffixFit_fits cs (t / 2)⟩
+
+/-- before the repair: `'a' + 200 × 'é'` (the std.trace reproduction) sliced inside a character -/
+theorem truncateDebug_orig_defect :
+    truncateDebugOrig (97 :: List.replicate 200 233) 256 = none := by decide +kernel
+
+example : truncateDebug (97 :: List.replicate 200 233) 256 =
+    some (97 :: List.replicate 63 233 ++ [46, 46] ++ List.replicate 64 233) := by decide +kernel
+
+/-! ## 3. Kernels proved total under another property, restated -/
+
+/-- array element access never panics, whatever the internal representation and the index
+    (slice / reverse / repeat / range arithmetic on `usize`/`u32`/`i32`): C08's `get_total` -/
+theorem arrGet_total (t : JrsVerif.Arr.T) (h : t.WF) (i : Nat) :
+    JrsVerif.Arr.get (JrsVerif.Arr.build t) i ≠ .panic := JrsVerif.Arr.get_total t h i
+
+end JrsVerif.Props.C04
